@@ -315,7 +315,10 @@ def snap(x, uu=None):
             out.append([[k, list(v.array.shape), v.array.tobytes().hex()[:512], v.num_bits] for k, v in pub.data.items()])
         return ["primitive-result", out, repr(x.metadata)[:200]]
     if hasattr(x, "quasi_dists"):
-        return ["sampler-result", [sorted([int(k), _pkey(v)] for k, v in q.items()) for q in x.quasi_dists], repr(x.metadata)[:200]]
+        # the outcome keys are recorded AS SPELLED (type and text: 3, '0b011', '011', '0x3' are different keys of the caller's
+        # mapping), together with the mapping's type; the order of the keys is not compared
+        return ["sampler-result", [[type(q).__name__, sorted([type(k).__name__, repr(k), _pkey(v)] for k, v in q.items())]
+                                   for q in x.quasi_dists], repr(x.metadata)[:200]]
     if isinstance(x, Instruction):
         return snap_op(x, uu)
     return ["r", repr(x)[:120]]
@@ -990,6 +993,8 @@ def run_entry(entry, inplace, d, w=None):
             circ, _bases = cut_gates(qc0, two_q_plain_ids(qc0))
             exps, coeffs = generate_cutting_experiments(circ, obs, np.inf)
             results = ExactSampler().run(exps).result()
+            if d.get("spell") is not None:
+                results = respell_result(results, len(exps), d["spell"])
             sobs = obs
             rs = [hb.result(results)]
             ol = [hb.pauli(obs)]
@@ -1012,6 +1017,8 @@ def run_entry(entry, inplace, d, w=None):
                 results = {k: PrimitiveResult([pub(x) for x in v], metadata={"version": 2}) for k, v in exps.items()}
             else:
                 results = {k: ExactSampler().run(v).result() for k, v in exps.items()}
+                if d.get("spell") is not None:
+                    results = {k: respell_result(r, len(exps[k]), d["spell"] + 7 * j) for j, (k, r) in enumerate(results.items())}
             sobs = pp.subobservables
             rs = [hb.result(results[k]) for k in results]
             ol = [hb.pauli(sobs[k]) for k in results]
@@ -1030,6 +1037,39 @@ def record_json(entry, inplace, d, lit, rec, cls, tag):
                 later_call_changed=rec["later_call_changed"], later_call_error=rec["later_call_error"],
                 fresh_later_changed=rec.get("fresh_later_changed") or [],
                 result_is_arg=rec.get("result_is_arg"), kinds=KINDS)
+
+
+def spell_outcome(o, width, how):
+    """the outcome `o` (an int) in one of the spellings reconstruct_expectation_values accepts as a key of a quasi-distribution"""
+    o = int(o)
+    if how == 1:
+        return bin(o)                                   # '0b101'
+    if how == 2:
+        return format(o, "0%db" % max(width, 1))        # '00101' (as in a counts dictionary)
+    if how == 3:
+        return hex(o)                                   # '0x5'
+    if how == 4:
+        b = format(o, "0%db" % max(width, 2))
+        return b[:-1] + " " + b[-1:]                    # '0010 1' (registers separated by a blank)
+    return o
+
+
+def respell_result(res, n, seed):
+    """A SamplerV1 result with the same quasi-probabilities as `res`, every quasi-distribution a plain dict whose keys
+    are spelled per outcome as int / '0b…' / bitstring / '0x…' / blank-separated bitstring (deterministic in `seed`);
+    the first key of every distribution is a string."""
+    from qiskit.primitives import SamplerResult
+    r = np.random.default_rng([1603, int(seed)])
+    out = []
+    for q in list(res.quasi_dists)[:n]:
+        keys = sorted(int(k) for k in q)
+        width = max([k.bit_length() for k in keys] + [1]) + int(r.integers(0, 2))
+        dq = {}
+        for j, k in enumerate(keys):
+            how = int(r.integers(1, 5)) if j == 0 else int(r.integers(0, 5))
+            dq[spell_outcome(k, width, how)] = float(q[k])
+        out.append(dq)
+    return SamplerResult(quasi_dists=out, metadata=[dict(m) for m in list(res.metadata)[:n]])
 
 
 class Collector:
@@ -1156,9 +1196,9 @@ def generate(rng, tier, outdir):
     PROBE_REF = probe()   # pristine reference for "later calls on new inputs", taken before any destructive edit
     quick = tier == "quick"
     N = dict(pcq=70, cut_gates=70, partition=100, cut_wires=70, expand=30, find_cuts=36, generate=44, dqi=60, reconstruct=12,
-             inplace=66, separate=36) if quick else \
+             reconstruct_spell=6, inplace=66, separate=36) if quick else \
         dict(pcq=400, cut_gates=400, partition=500, cut_wires=400, expand=150, find_cuts=200, generate=200, dqi=300,
-             reconstruct=48, inplace=300, separate=250)
+             reconstruct=48, reconstruct_spell=24, inplace=300, separate=250)
     w.notes.append("known classes routed to the current-behaviour checker: " + (",".join(sorted(known)) or "none"))
 
     def tl(labels):
@@ -1278,6 +1318,18 @@ def generate(rng, tier, outdir):
             qp = qpd_positions(cd)
             g.case("dqi", dict(circuit=cd, ids=[k for k, _ in qp], map_ids=[int(rng.integers(0, n)) for _, n in qp]), inplace=True)
 
+    # TARGETED stream (result objects as spelled by the caller): the SamplerV1 results of the experiments are handed over as
+    # plain mutable mappings whose outcome keys are spelled, per outcome, as int / '0b…' / zero-padded or blank-separated
+    # bitstring / '0x…' (every spelling reconstruct_expectation_values accepts); the argument snapshot records the keys as
+    # spelled, so re-keying, merging or re-typing the caller's mappings shows as `changed`
+    for it in range(N["reconstruct_spell"]):
+        name = SMALL_SRC[int(rng.integers(0, 3))]
+        ops = [dict(g=["h", "x", "s"][int(rng.integers(0, 3))], q=[int(rng.integers(0, 2))]),
+               dict(g=name, q=[0, 1], p=_params_for(name, rng))]
+        g.case("reconstruct", dict(circuit=dict(nq=2, ops=ops), obs=rand_obs(rng, 2), form=["dict-v1", "plain-v1"][it % 2],
+                                   spell=int(rng.integers(0, 1000000))))
+        w.count("reconstruct.keys", "spelled")
+
     # ---- run the units (forked one-shot workers) and collect
     results = run_units(g.units)
     lost = [i for i, r in enumerate(results) if r["status"] == "lost"]
@@ -1316,7 +1368,8 @@ def generate(rng, tier, outdir):
              "explicit labels from a pool of hashables and automatic labels (incl. idle qubits -> None); negative gate ids; "
              "separate_circuit with wide barriers; random PauliLists; exact (num_samples=inf) and seeded finite generation, both "
              "call forms; decompose_qpd_instructions with explicit map ids, map_ids=None and two-element instruction ids; "
-             "reconstruction from SamplerResult (dict and plain form) and PrimitiveResult; every call also in its "
+             "reconstruction from SamplerResult (dict and plain form) and PrimitiveResult, plus SamplerResults held in plain "
+             "mappings with outcome keys spelled as int / 0b / bitstring / 0x (keys snapshotted as spelled); every call also in its "
              "in-place form where one exists. UnitaryGate instructions in input circuits and pre-placed gates in separate_circuit "
              "are generated (known findings F20 / F19). distinct = distinct Coq case literal; non-trivial = heap with > 2 objects",
         extra=dict(extra=dict(known_classes=sorted(known))),
